@@ -4,7 +4,8 @@
      qpoint [fn, k, val, slack]        a lattice point whose closed form is Q(k):  QTab[k] <= val <= QTab[k] (1 + slack*1e-8)
                                        (values of the soft-decision formula, a difference 1 - integral, are compared down to 1e-9 only:
                                         below that the double-precision formula has no relative accuracy)
-     eq     [name, a, b, tol]          two API programs that must agree (tol in mantissa units = 1e-8 relative)
+     eq     [name, a, b, tol]          two API programs that must agree (tol in mantissa units = 1e-8 relative); thresholds found on a
+                                       1000-point grid are compared up to 4 grid steps (argmin over a flat minimum)
      leq    [name, a, b]               a <= b
      inside [name, lo, x, hi]          lo <= x <= hi
      mono   [name, seq]                non-increasing sequence of Sci values                                *)
